@@ -40,7 +40,7 @@ def budget(n):
 
 def config(rs, run, tier):
     r = rs("config")
-    return {"n_ops": 1, "kind": r.choice(["soup", "soup", "soup", "damaged", "torn", "depth", "style", "graph", "graph"])}
+    return {"n_ops": 1, "kind": r.choice(["soup", "soup", "soup", "damaged", "torn", "depth", "repeat", "style", "graph", "graph"])}
 
 
 class World:
@@ -213,7 +213,12 @@ def _graph(r, cyc):
     return root_imps, docs
 
 
-NEST = ["f(", "calc(", "rgb(", "not(", "(", "[", "{", "url(", "var(", "a{", "@media print{", ":not(", "@page{", "\"", "/*"]
+NEST = ["f(", "calc(", "rgb(", "not(", "(", "[", "{", "url(", "var(", "var(v,", "var(v, ", "a{", "@media print{", ":not(", "@page{", "\"", "/*"]
+# 'repeat' documents: one token many times inside a context that may never be closed (regular-expression and
+# production loops whose cost depends on how often a token repeats)
+REP_PREFIX = ["", "/*", "url(", "a{x:url(", "\"", "'", "a{x:", "@x ", "a[", "@media ", "a{x:'", "@import url(", "a:", "@charset \"", "<!--", "a{x:f(", "@page :", "@namespace "]
+REP_TOKEN = ["*", "\\z", "\\)", "\\41 ", "\\41", "\\\n", "\\", "a", " ", "\n", "-", "+", ".", "1", "1.", "/", "/*", "*/", "(", ")", "'", "\"", ",", ";", ":", "!", "#", "@", "|", "u+", "\\2d", "é", "\t", "\x0c", "<!--", "-->", "* ", "*/*", "\\a\n"]
+REP_SUFFIX = ["", "", " x", ")", "}", "*/", "\"", ";", "{}"]
 
 
 def gen_op(r, w, i):
@@ -221,7 +226,7 @@ def gen_op(r, w, i):
         return None
     kind = w.cfg["kind"]
     op = {"op": "parse", "kind": kind, "comments": r.random() < 0.7, "validate": r.random() < 0.7}
-    op["entry"] = r.choice(["string", "string", "global", "url", "file", "style" if kind in ("soup", "style", "depth") else "string"])
+    op["entry"] = r.choice(["string", "string", "global", "url", "file", "style" if kind in ("soup", "style", "depth", "repeat") else "string"])
     docs = {}
     if kind == "soup":
         root = G.soup(r, r.choice([1, 2, 3, 5, 8, 12, 20, 40, 80, 200]))
@@ -231,10 +236,14 @@ def gen_op(r, w, i):
         root = G.torn(r, G.sheet(r, bad=0.2)) + r.choice(["", "", "@charset ", "var(", "rgb(", "<!--@x", "url(", "\\", "@", "!"])
     elif kind == "style":
         root = G.decl_block(r, bad=0.5) if r.random() < 0.5 else G.soup(r, r.choice([3, 10, 30]))
+    elif kind == "repeat":
+        d = r.choice([3, 8, 16, 24, 32, 48, 64, 100, 200])
+        root = r.choice(REP_PREFIX) + r.choice(REP_TOKEN) * d + r.choice(REP_SUFFIX)
+        op["depth"] = d
     elif kind == "depth":
         d = r.choice([5, 10, 20, 30, 50, 70, 90, 100])
         opener = r.choice(NEST)
-        closer = {"f(": ")", "calc(": ")", "rgb(": ")", "not(": ")", "(": ")", "[": "]", "{": "}", "url(": ")", "var(": ")", "a{": "}", "@media print{": "}", ":not(": ")", "@page{": "}", "\"": "\"", "/*": "*/"}[opener]
+        closer = {"var(v,": ")", "var(v, ": ")", "f(": ")", "calc(": ")", "rgb(": ")", "not(": ")", "(": ")", "[": "]", "{": "}", "url(": ")", "var(": ")", "a{": "}", "@media print{": "}", ":not(": ")", "@page{": "}", "\"": "\"", "/*": "*/"}[opener]
         inner = r.choice(["1", "a", "x:y", "", "red"])
         closed = r.choice([d, d, d // 2, 0])
         body = opener * d + inner + closer * closed
